@@ -69,6 +69,23 @@ func genC06(seed uint64, tier string) *plan.Plan {
 		census(k)
 	}
 	p.Phases = []plan.Phase{{Name: "conflicts", Clients: []plan.Script{sc}}}
+	// Concurrent deliveries into a partition whose fragment does not exist yet on the receiver: two
+	// to three fragment packs with different timestamps for one key of an untouched DMap arrive at
+	// the same time (with many short pauses at the scheduling points); the newest must survive.
+	for f, nf := 0, r.Range(0, 3); f < nf; f++ {
+		dm := fmt.Sprintf("race%d", f)
+		race := plan.Phase{Name: "race", Yields: true}
+		for c, nc := 0, r.Range(2, 3); c < nc; c++ {
+			vn++
+			race.Clients = append(race.Clients, plan.Script{ID: 10 + c, Kind: "ctl", Ops: []plan.Op{
+				{K: "ctl.plant", Tag: "merge", DM: dm, Key: "rk", Val: fmt.Sprintf("v%d", vn), Delta: int64((c+1)*1000*Pick(r, -1, 1, 3)) + int64(c), Count: 1, D: int64(Pick(r, 0, 0, 20, 100))},
+			}})
+		}
+		p.Phases = append(p.Phases, race, plan.Phase{Name: "race-census", Clients: []plan.Script{{ID: 1, Kind: "ctl", Ops: []plan.Op{{K: "ctl.copies", DM: dm, Key: "rk", Tag: "racecensus"}}}}})
+	}
+	if len(p.Phases) > 1 {
+		p.Yield = plan.YieldSpec{ArmPermille: 700, ParkPermille: 500, MaxUs: int64(Pick(r, 100, 400, 1000))}
+	}
 	p.Variant = fmt.Sprintf("rr=%v/R%d/N%d/%s", p.Cluster.ReadRepair, p.Cluster.ReplicaCount, n, sig)
 	return p
 }
@@ -200,6 +217,29 @@ func oracleC06(p *plan.Plan, his []plan.Rec, res *plan.Result) {
 				if k != key && after[k] != c {
 					viol(res, "merge-touched-other-copy", kind, "delivering a fragment to %s changed %s from %+v to %+v", key, k, c, after[k])
 				}
+			}
+		}
+	}
+	// concurrent deliveries: the primary copy is the delivered entry with the newest timestamp
+	for i := range recs {
+		c := &recs[i]
+		if c.Op.K != "ctl.copies" || c.Op.Tag != "racecensus" {
+			continue
+		}
+		var best *plan.Rec
+		for j := range recs {
+			d := &recs[j]
+			if d.Op.K == "ctl.plant" && d.Op.DM == c.Op.DM && d.Op.Key == c.Op.Key && d.Err == "" && (best == nil || d.TS > best.TS) {
+				best = d
+			}
+		}
+		if best == nil {
+			continue
+		}
+		res.Nontrivial = true
+		for _, cp := range c.Copies {
+			if cp.Kind == "primary" && cp.Routed == "owner" && (!cp.Found || cp.TS != best.TS) {
+				viol(res, "merge-not-newest", "concurrent", "fragment packs for %s/%s were delivered concurrently to a member without a fragment; the newest has ts %d (%q) but the owner holds %+v", c.Op.DM, c.Op.Key, best.TS, best.Op.Val, cp)
 			}
 		}
 	}
